@@ -6,8 +6,25 @@ Open Scope Z_scope.
 
 (* a source construct outside the translated fragment: opaque, nothing can be proved about it *)
 Definition imp_untranslated (what : string) (keys_ glyphOrder_ : list str) : list str. Proof. exact []. Qed.
+Definition imp_untranslated_u2g (what : string) (glyphOrder_ : list (str * list Z)) : list (Z * str) + (str * Z * str).
+Proof. exact (inl []). Qed.
+
+(* Python dicts with integer keys and name values: association lists in insertion order *)
+Fixpoint zfind (k : Z) (m : list (Z * str)) : option str :=
+  match m with [] => None | (k', v) :: m' => if Z.eqb k k' then Some v else zfind k m' end.
+Definition zmem (k : Z) (m : list (Z * str)) : bool := match zfind k m with Some _ => true | None => false end.
+Definition zget (k : Z) (m : list (Z * str)) : str := match zfind k m with Some v => v | None => [] end.   (* KeyError when absent *)
+Fixpoint zset (k : Z) (v : str) (m : list (Z * str)) : list (Z * str) :=
+  match m with [] => [(k, v)] | (k', v') :: m' => if Z.eqb k k' then (k, v) :: m' else (k', v') :: zset k v m' end.
 
 Definition tr_glyph_order_loop1 (st : list str * list str) (name_ : str) : list str * list str :=
   let '(names_, order_) := st in (if (negb (mem name_ names_)) then (names_, order_) else let names_ := (remove_str name_ names_) in let order_ := (order_ ++ [name_]) in (names_, order_)).
 Definition tr_glyph_order (keys_ glyphOrder_ : list str) : list str :=
-  let names_ := keys_ in let order_ := [] in let '(names_, order_) := (let '(names_, order_) := (if (mem ([46; 110; 111; 116; 100; 101; 102] : str) names_) then let names_ := (remove_str ([46; 110; 111; 116; 100; 101; 102] : str) names_) in let order_ := (order_ ++ [([46; 110; 111; 116; 100; 101; 102] : str)]) in (names_, order_) else (names_, order_)) in let '(names_, order_) := fold_left tr_glyph_order_loop1 glyphOrder_ (names_, order_) in let order_ := (order_ ++ (sort_str names_)) in (names_, order_)) in order_.
+  let names_ := keys_ in let order_ := [] in let '(names_, order_) := (let '(names_, order_) := (if (mem ([46; 110; 111; 116; 100; 101; 102] : str) names_) then let names_ := (remove_str ([46; 110; 111; 116; 100; 101; 102] : str) names_) in let order_ := (order_ ++ [([46; 110; 111; 116; 100; 101; 102] : str)]) in (names_, order_) else (names_, order_)) in let '(names_, order_) := fold_left (tr_glyph_order_loop1) glyphOrder_ (names_, order_) in let order_ := (order_ ++ (sort_str names_)) in (names_, order_)) in order_.
+
+Definition tr_u2g_loop1 (glyphName_ : str) (unicodes_ : list Z) (st : list (Z * str) * option (str * Z * str)) (uni_ : Z) : list (Z * str) * option (str * Z * str) :=
+  let '(mapping_, err_) := st in match err_ with Some _ => (mapping_, err_) | None => let '(mapping_, err_) := (if (negb (zmem uni_ mapping_)) then let mapping_ := (zset uni_ glyphName_ mapping_) in (mapping_, err_) else let err_ := Some (glyphName_, uni_, (zget uni_ mapping_)) in (mapping_, err_)) in (mapping_, err_) end.
+Definition tr_u2g_loop2 (st : list (Z * str) * option (str * Z * str)) (elem_ : str * list Z) : list (Z * str) * option (str * Z * str) :=
+  let '(mapping_, err_) := st in let '(glyphName_, unicodes_) := elem_ in match err_ with Some _ => (mapping_, err_) | None => let '(mapping_, err_) := fold_left (tr_u2g_loop1 glyphName_ unicodes_) unicodes_ (mapping_, err_) in (mapping_, err_) end.
+Definition tr_u2g (glyphOrder_ : list (str * list Z)) : list (Z * str) + (str * Z * str) :=
+  let mapping_ := [] in let err_ := (None : option (str * Z * str)) in let '(mapping_, err_) := (let '(mapping_, err_) := fold_left (tr_u2g_loop2) glyphOrder_ (mapping_, err_) in (mapping_, err_)) in match err_ with Some e_ => inr e_ | None => inl mapping_ end.
